@@ -370,3 +370,52 @@ class SP_FK_inverts_IK_probes(SPC):
         sp, goal, L, h = out
         g.eq('FK of the IK lengths recovers the pose (to 1e-3 of the neutral height)', sp.getTopT().gTM() / h, goal.gTM() / h)
         g.eq('lengths reported after FK are the requested ones', _np.array(sp.getLens(), dtype=float).reshape(-1) / h, L.reshape(-1) / h)
+
+
+@register
+class SP_inverseJacobian_hypothetical_pose(_SPObj):
+    """inverseJacobian(top, bottom) asked for plate poses OTHER than the current ones: the rows describe the poses asked
+    for, and afterwards both plate poses are the ones the platform had before and the published joint tables, lengths
+    and relative transform are coherent with them (a pure query, also with explicit arguments)"""
+    prop = ('C10', 'C11')
+    tier = 'quick'
+    general_hypothetical = False
+    target = SPM + ':SP.inverseJacobian'
+    shape_bound = 'one fixed hexagonal geometry (rational joint coordinates); all current plate poses; poses asked for: unrotated plates at all positions'
+    timeout = 60.0
+
+    def run(self, g, fn, args, kwargs):
+        sp = test_platform(g)
+        b, Mb = frame(g, 'b')
+        t, Mt = frame(g, 't')
+        sp.IK(top_plate_pos=t, bottom_plate_pos=b, protect=True)
+        if self.general_hypothetical:
+            b2, Mb2 = frame(g, 'c')
+            t2, Mt2 = frame(g, 'u')
+        else:
+            # quick tier: the poses asked for are unrotated plates at arbitrary positions (no conversion forks)
+            tmc = g.module(TMM).tm
+            Mb2 = S.RpT(S.eye(3, Mb), g.reals('cp', 3, scale=1.0))
+            Mt2 = S.RpT(S.eye(3, Mb), g.reals('up', 3, scale=2.0))
+            b2, t2 = tmc(Mb2.copy()), tmc(Mt2.copy())
+        L2, B2, Tp2 = spec_ik(Mb2, Mt2, sp._bottom_joints_local, sp._top_joints_local)
+        for i in range(6):
+            g.require(L2[i] > 0.05)
+        J = sp.inverseJacobian(top_plate_pos=t2, bottom_plate_pos=b2, protect=True)
+        return sp, J, Mb, Mt, (L2, B2, Tp2)
+
+    def post(self, g, out, args, kwargs):
+        sp, J, Mb, Mt, (L2, B2, Tp2) = out
+        for i in range(6):
+            n = (Tp2[i] - B2[i]) / L2[i]
+            g.eq('row %d = [q x n, n] at the poses asked for' % i, J[i, :], S.arr(list(S.cross3(B2[i], n)) + list(n)))
+        z = zone(g)
+        g.eq('after the query the bottom pose is the one the platform had' + z, sp.getBottomT().gTM(), Mb)
+        g.eq('after the query the top pose is the one the platform had' + z, sp.getTopT().gTM(), Mt)
+        if not z:
+            self.coherent(g, sp, Mb, Mt, 'after the query')
+
+
+register(type('SP_inverseJacobian_hypothetical_pose_general', (SP_inverseJacobian_hypothetical_pose,),
+              dict(tier='thorough', general_hypothetical=True,
+                   shape_bound='one fixed hexagonal geometry (rational joint coordinates); all current and all hypothetical plate poses')))
